@@ -193,7 +193,9 @@ def float_sum(eng, st, o):
     sum_axioms(eng, arr, n)
     if hasattr(eng, "_sum_terms"):
         eng._sum_terms.append((arr, n))
-    return VFloat(SUMR(arr, z3.If(n > 0, n, 0)), z3.Or(anynan, z3.And(anyp, anyn)), z3.Or(anyp, anyn), anyp, anyc)
+    tot = SUMR(arr, z3.If(n > 0, n, 0))
+    # a sum with complex terms may be real again (the imaginary parts can cancel)
+    return VFloat(tot, z3.Or(anynan, z3.And(anyp, anyn)), z3.Or(anyp, anyn), anyp, z3.And(anyc, VV.MAYC1(z3.IntVal(6), tot)))
 
 
 # ----- helpers ---------------------------------------------------------------------------------
@@ -337,6 +339,8 @@ def m_list(eng, st, args, kwargs, node):
     if not args:
         return eng.mk_list([], st)
     v = args[0]
+    if isinstance(v, VFn):
+        return VFn(z3.Const(fresh_name("opq"), Fn))          # list(<opaque iterable>): opaque
     if isinstance(v, VConc) and v.name == "enumerate":
         o = st.heap[v.obj[0].addr]
         g = o.get
@@ -1020,6 +1024,48 @@ def m_is_float(eng, st, args, kwargs, node):
     raise Unsupported("is_float(%r)" % (v,))
 
 
+def m_join(eng, st, recv, args, kwargs, node):
+    """sep.join(strings): an abstract string"""
+    return VLabel(z3.Const(fresh_name("joined"), Label))
+
+
+def m_opaque_fn(eng, st, args, kwargs, node):
+    return VFn(z3.Const(fresh_name("opq"), Fn))
+
+
+def m_np_arange(eng, st, args, kwargs, node):
+    if len(args) != 1:
+        raise Unsupported("np.arange form")
+    n = eng.as_int(args[0])
+    return st.alloc(HSeq(z3.If(n > 0, n, 0), lambda k: VInt(k), numpy=True, etype=T.int))
+
+
+def m_reversed(eng, st, args, kwargs, node):
+    o = seq_of(eng, st, args[0], node)
+    g, n = o.get, o.len
+    return st.alloc(HSeq(n, lambda k: g(n - 1 - k), etype=o.etype))
+
+
+def m_combinations(eng, st, args, kwargs, node):
+    """itertools.combinations(seq, r): some number of r-tuples of elements of seq (nothing else is needed by the verified code)"""
+    o = seq_of(eng, st, args[0], node)
+    r = eng.as_int(args[1])
+    nm = fresh_name("comb")
+    ncomb = z3.Int(nm + ".count")
+    eng.axioms.append(ncomb >= 0)
+    pick = z3.Function(nm + ".pick", z3.IntSort(), z3.IntSort(), z3.IntSort())     # position in seq of entry c of combination q
+    q_, c_ = z3.Ints("q!cb c!cb")
+    eng.axioms.append(z3.ForAll([q_, c_], z3.And(0 <= pick(q_, c_), pick(q_, c_) < z3.If(o.len > 0, o.len, 1)), patterns=[pick(q_, c_)]))
+    g = o.get
+
+    def comb(q):
+        eng._addr += 1
+        from .engine import Heap
+        Heap.shared[eng._addr] = HSeq(z3.If(r > 0, r, 0), lambda c, q=q: g(pick(q, c)), etype=o.etype)
+        return VRef(eng._addr)
+    return st.alloc(HSeq(ncomb, comb))
+
+
 def m_replace(eng, st, recv, args, kwargs, node):
     """s.replace(a, b) on an abstract string: an abstract string determined by the three arguments"""
     if isinstance(recv, VStr) and all(isinstance(a, VStr) for a in args):
@@ -1063,6 +1109,19 @@ def m_store_mask(eng, st, base, idx, v, node):
     o = st.heap[base.addr]
     mo = st.heap[idx.addr]
     e0 = mo.get(z3.Int("k!probe"))
+    if isinstance(e0, VInt) and not isinstance(v, VRef):
+        # a[indices] = scalar: every listed position is set
+        ig, n_ = mo.get, mo.len
+        kq = z3.Int(fresh_name("k!si"))
+        s2 = st.fork()
+        s2.pc = list(st.pc) + [0 <= kq, kq < n_]
+        eng.oblige(s2, "index list entries in range (store)", z3.And(ig(kq).t >= 0, ig(kq).t < o.len), "safety", node)
+        g = o.get
+        probe = g(z3.Int("k!probe"))
+        vv = as_float(v) if isinstance(probe, VFloat) else (VBool(eng.truth(v, st)) if isinstance(probe, VBool) else v)
+        hit = lambda k: any_of(eng, n_, lambda q, k=k: ig(q).t == k, "inidx")
+        st.heap[base.addr] = HSeq(o.len, lambda k: ite(hit(k), vv, g(k)), numpy=True, etype=o.etype)
+        return None
     if not isinstance(e0, VBool):
         raise Unsupported("store with an index array (line %d)" % node.lineno)
     eng.oblige(st, "mask has the length of the array", mo.len == o.len, "safety", node)
@@ -1219,6 +1278,8 @@ def m_store2d(eng, st, base, sl, v, node):
 
 def m_np_zeros2(eng, st, args, kwargs, node):
     n = args[0]
+    if isinstance(n, VTuple) and len(n.items) == 1:
+        return m_np_zeros(eng, st, [n.items[0]], kwargs, node)
     if isinstance(n, (VTuple,)) or (isinstance(n, VRef) and eng.is_seq(n, st)):
         items = n.items if isinstance(n, VTuple) else [st.heap[n.addr].get(z3.IntVal(0)), st.heap[n.addr].get(z3.IntVal(1))]
         if len(items) == 2:
@@ -1451,7 +1512,11 @@ def install(eng):
     eng.methods["pprint"] = m_pprint
     eng.methods.update({"append": m_append, "copy": m_copy, "cumsum": m_cumsum, "astype": m_astype,
                         "keys": m_dict_keys, "readlines": m_readlines, "lstrip": m_lstrip, "isdigit": m_isdigit, "replace": m_replace,
-                        "lower": m_lower, "startswith": m_startswith})
+                        "lower": m_lower, "startswith": m_startswith, "join": m_join})
+    M["sympy.symbols"] = m_opaque_fn
+    M["np.arange"] = m_np_arange
+    M["builtin:reversed"] = m_reversed
+    M["itertools.combinations"] = m_combinations
     M["generator.is_float"] = m_is_float
     M["is_float"] = m_is_float
     eng.module_consts.update({
